@@ -150,11 +150,28 @@ def body_fingerprint(node, rev=None):
                 n.id = '<self>'
             elif rev and n.id in rev:
                 n.id = rev[n.id]
-    parts = [ast.dump(node.args)] + [ast.dump(st) for st in node.body
-                                     if not (isinstance(st, ast.Expr) and
-                                             isinstance(st.value, ast.Constant)
-                                             and isinstance(st.value.value, str))]
+    parts = [_dump(node.args)] + [_dump(st) for st in node.body
+                                  if not (isinstance(st, ast.Expr) and
+                                          isinstance(st.value, ast.Constant)
+                                          and isinstance(st.value.value, str))]
     return hashlib.sha1('\n'.join(parts).encode()).hexdigest()[:16]
+
+
+def _dump(node):
+    """ast.dump without the fields that differ between interpreter versions
+    (type_params, type_comment, kind) and without empty / None fields."""
+    if isinstance(node, ast.AST):
+        fields = []
+        for name, value in ast.iter_fields(node):
+            if name in ('type_params', 'type_comment', 'kind', 'ctx'):
+                continue
+            if value is None or value == []:
+                continue
+            fields.append('%s=%s' % (name, _dump(value)))
+        return '%s(%s)' % (type(node).__name__, ', '.join(fields))
+    if isinstance(node, list):
+        return '[%s]' % ', '.join(_dump(x) for x in node)
+    return repr(node)
 
 
 _FPS = None
@@ -207,6 +224,124 @@ def canonical_maps(containers):
                     changed = True
         if not changed:
             break
+    return out
+
+
+def _delegate_ok(wnode, core_name, is_method):
+    """Is `wnode` a transparent delegate of the function `core_name`: it
+    calls it exactly once, with its own parameters in order, and everything
+    it returns / yields is that call's result - directly, through
+    tuple()/list()/iter(), or looked up again in a module-level memo (whose
+    soundness is clause DM's business)?"""
+    a = wnode.args
+    if a.vararg or a.kwarg or a.kwonlyargs:
+        return False
+    params = [x.arg for x in a.posonlyargs + a.args]
+    call_params = params[1:] if is_method else params
+    calls = []
+    for n in ast.walk(wnode):
+        if isinstance(n, ast.Call):
+            f = n.func
+            nm = f.id if isinstance(f, ast.Name) else (
+                f.attr if isinstance(f, ast.Attribute) and
+                isinstance(f.value, ast.Name) and f.value.id == 'self'
+                else None)
+            if nm == core_name:
+                calls.append(n)
+    if len(calls) != 1:
+        return False
+    c = calls[0]
+    passed = [x.id if isinstance(x, ast.Name) else None for x in c.args] + \
+        [k.value.id if isinstance(k.value, ast.Name) and
+         k.arg == k.value.id else None for k in c.keywords]
+    if passed != call_params:
+        return False
+    # names that hold (a conversion of) the result
+    holds = set()
+
+    def derived(e):
+        if e is c:
+            return True
+        if isinstance(e, ast.Name) and e.id in holds:
+            return True
+        if isinstance(e, ast.Call) and isinstance(e.func, ast.Name) and \
+                e.func.id in ('tuple', 'list', 'iter') and \
+                len(e.args) == 1 and not e.keywords:
+            return derived(e.args[0])
+        if isinstance(e, ast.Subscript) and isinstance(e.value, ast.Name) \
+                and e.value.id[:1] == '_':
+            return True          # memo lookup
+        if isinstance(e, ast.Call) and isinstance(e.func, ast.Attribute) \
+                and e.func.attr in ('get', 'setdefault') and \
+                isinstance(e.func.value, ast.Name) and \
+                e.func.value.id[:1] == '_':
+            return True          # memo lookup
+        return False
+    for _ in range(3):
+        for n in ast.walk(wnode):
+            if isinstance(n, ast.Assign) and derived(n.value):
+                for t in n.targets:
+                    if isinstance(t, ast.Name):
+                        holds.add(t.id)
+            if isinstance(n, ast.For) and derived(n.iter) and \
+                    isinstance(n.target, ast.Name):
+                holds.add(('elem', n.target.id))
+    outs = 0
+    for n in ast.walk(wnode):
+        if isinstance(n, ast.Return) and n.value is not None:
+            if not derived(n.value):
+                return False
+            outs += 1
+        if isinstance(n, ast.YieldFrom):
+            if not derived(n.value):
+                return False
+            outs += 1
+        if isinstance(n, ast.Yield):
+            if not (isinstance(n.value, ast.Name) and
+                    ('elem', n.value.id) in holds):
+                return False
+            outs += 1
+        if isinstance(n, (ast.Raise, ast.While, ast.Global, ast.Nonlocal)):
+            return False
+        if isinstance(n, ast.Call) and n is not c:
+            f = n.func
+            ok = (isinstance(f, ast.Name) and
+                  f.id in ('tuple', 'list', 'iter', 'len')) or (
+                isinstance(f, ast.Attribute) and
+                isinstance(f.value, ast.Name) and f.value.id[:1] == '_' and
+                f.attr in ('get', 'setdefault', 'add', 'pop', 'popitem',
+                           'clear'))
+            if not ok:
+                return False
+        if isinstance(n, ast.Attribute) and isinstance(n.ctx, ast.Store):
+            return False
+    return outs > 0
+
+
+def wrapper_core_splits(conts):
+    """{container: {K: U}}: the known function K still exists but is now a
+    transparent delegate (typically a memo) of a NEW function U that has the
+    body K used to have.  The rules were written against that body, so the
+    trees are rewritten: U takes the name K, the delegate becomes
+    K__wrapper, references to U become references to K."""
+    fps = known_fingerprints()
+    out = {}
+    for cont, present in conts.items():
+        prefix = cont + '.'
+        known_here = {k[len(prefix):]: v for k, v in fps.items()
+                      if k.startswith(prefix) and '.' not in k[len(prefix):]}
+        for K, fp in known_here.items():
+            if K not in present or body_fingerprint(present[K]) == fp:
+                continue
+            cands = [n for n, node in present.items()
+                     if n not in known_here and n != K and (
+                         body_fingerprint(node) == fp or
+                         body_fingerprint(node, {K: '<self>'}) == fp)]
+            if len(cands) != 1:
+                continue
+            U = cands[0]
+            if _delegate_ok(present[K], U, is_method='.' in cont):
+                out.setdefault(cont, {})[K] = U
     return out
 
 
@@ -401,6 +536,26 @@ class Program:
                                     if isinstance(t, ast.Name) and \
                                             t.id in self.attr_alias:
                                         t.id = self.attr_alias[t.id]
+        # a known function turned into a delegate of a new function that
+        # has its old body: the new function is analysed under the known name
+        self.splits = {}
+        for cont, mp in wrapper_core_splits(conts).items():
+            mname = cont.split('.')[0]
+            tree = self.modules[mname].tree
+            for K, U in mp.items():
+                wnode, cnode = conts[cont][K], conts[cont][U]
+                wname = K + '__wrapper'
+                for n in ast.walk(tree):
+                    if isinstance(n, ast.Name) and n.id == U:
+                        n.id = K
+                    elif isinstance(n, ast.Attribute) and n.attr == U:
+                        n.attr = K
+                cnode.name = K
+                wnode.name = wname
+                conts[cont][K] = cnode
+                del conts[cont][U]
+                conts[cont][wname] = wnode
+                self.splits['%s.%s' % (cont, K)] = '%s.%s' % (cont, wname)
         self._canon = canonical_maps(conts)
         # actual method name -> known name, for calls on receivers whose class
         # is not known (msg._marshal(False), self.factory._failed(reason))
